@@ -26,6 +26,8 @@ Definition acct_eqb (a b : acct) : bool :=
   end.
 
 Definition is_escrow (a : acct) : bool := match a with Escrow _ _ => true | _ => false end.
+(* accounts outside the custody accounts of the order / request / farming flows *)
+Definition is_outside (a : acct) : bool := match a with User _ | Reserve _ _ | Dust _ => true | _ => false end.
 
 Definition ledger := acct -> Z -> Z.                 (* account -> denom -> amount *)
 Definition ladd (l : ledger) (a : acct) (d x : Z) : ledger :=
@@ -840,6 +842,7 @@ Definition do_withdraw (s : state) (r : wdreq) (pl : pool) (pr : pair) (x y : Z)
   do s2 <- ssend s1 (Reserve (w_app r) (w_pool r)) (User (w_owner r)) (p_base pr) y;
   do s3 <- ssend s2 (Reserve (w_app r) (w_pool r)) (User (w_owner r)) (p_quote pr) x;
   if led s3 Module pd <? w_pc r then Err 5 else
+  if sup s3 (w_app r) (w_pool r) <? w_pc r then Panic else      (* bank BurnCoins: supply.Sub(amount) panics when negative *)
   let s4 := set_sup (set_led s3 (ladd (led s3) Module pd (- w_pc r))) (fadd2 (sup s3) (w_app r) (w_pool r) (- w_pc r)) in   (* BurnCoins *)
   let s5 := if w_pc r =? ps then disable_pool s4 pl else s4 in
   let s6 := set_ge_owed s5 (fadd1 (ge_owed s5) pd (- w_pc r)) in
